@@ -144,7 +144,7 @@ def record_pair(job: Tuple[dict, Any]) -> dict:
     echo = [e['t'] for e in dup['events'] if e['ev'] == 'recv' and e.get('resp') and not e.get('bad') and any(q[2] for q in e.get('qs', []))]
     return {'id': '%s/%s' % (sc['id'], mode), 'ref': obs(ref, sigs), 'dup': obs(dup, sigs), 'mcs': mcs, 'echo': echo,
             'qudups': [{'t': t, 'tc': tc} for (t, tc) in sorted({(d['t'], d['tc']) for d in dup['dups'] if d['qu']})],
-            'quprobes': sorted({d['t'] for d in dup['dups'] if d['qu'] and (d.get('probe') or d.get('legacy'))}),
+            'quprobes': sorted({d['t'] for d in dup['dups'] if d['qu'] and (d.get('legacy') or d.get('probe'))}),
             # (AAAA records heard on an IPv6 socket never equal the host's own: no recency for them, finding D22)
             'norecency': sorted({x['id'] for x in it.table if x['type'] == 28}) if sc.get('layout') == 'dual' else [],
             'ndups': len(dup['dups']),
@@ -193,8 +193,9 @@ def run_pairs(ctx: Ctx, jobs: List[Tuple[dict, Any]]) -> None:
             # (a quarter of the TTL the record has *now* -- an update may have shortened it; a second of margin: the cache may have missed
             # a sighting that was byte-identical to the one before it, finding D17)
             recent = {r for r in rids if any(m[0] < d['t'] and d['t'] - m[0] < 250 * rids[r] - 1000 for m in p['mcs'] for a in m[1] if a[0] == r and a[1] > 0)}
-            # (the copy of a probe, or of a query from another port than 5353, is answered like the original: by multicast whatever was
-            # multicast within the last quarter of the TTL -- D9 again)
+            # (the copy of a query from another port than 5353 is answered like the original: by multicast, whatever was multicast
+            # within the last quarter of the TTL, and so is the QM part of a probe that mixes QU and QM questions -- D9 again; a probe
+            # from port 5353 with QU questions only is subject to the quarter rule, C11)
             # ... and so is an AAAA record on an instance that listens on an IPv6 socket: it is never found recently multicast (D22)
             if rids and recent == set(rids) and d['t'] not in p.get('quprobes', []) and not (set(rids) & set(p.get('norecency', []))):
                 disc = 'extra-multicast-of-recently-multicast-records'
